@@ -272,6 +272,75 @@ func ruleD4(c *Ctx) {
 	c.check(patInAll(s, "@h, @o, @l := ContainsIP4(@c, nil)", "getStrCharsSig(@c, @o, @l)"), "D4", "skip-span", fd.Pos(), "the character-class signature skips exactly the reported span")
 }
 
+// D5: the stop offset and the end-of-input indications come from the scan itself. In IP4Prefix every
+// return reports the scan index as the stop offset; the indications that mean "the text ended here" (more-bytes,
+// ok) are issued only after the scanning loop ran out of bytes (dominated by the loop's exit edge), every other
+// indication only at a byte inside the loop. A shortcut that answers from the length of the text alone would
+// claim end of input without having looked at the bytes.
+func ruleD5(c *Ctx) {
+	mb, _ := c.namedConstInt("ErrHdrMoreBytes")
+	n := 0
+	for _, fnName := range []string{"IP4Prefix"} { // IP6Prefix funnels its indications through one variable and a common epilogue: not this shape
+		fn := c.SFuncs[fnName]
+		if fn == nil {
+			c.fail("D5", fnName, token.NoPos, "not found")
+			continue
+		}
+		head, body := mainLoop(fn)
+		if head == nil {
+			c.fail("D5", fnName+":loop", fn.Pos(), "scanning loop (index < len(buf)) not found")
+			continue
+		}
+		var idx *ssa.Phi
+		iff := head.Instrs[len(head.Instrs)-1].(*ssa.If)
+		if bo, ok := iff.Cond.(*ssa.BinOp); ok {
+			for _, v := range []ssa.Value{bo.X, bo.Y} {
+				if ph, ok := v.(*ssa.Phi); ok && ph.Block() == head {
+					idx = ph
+				}
+			}
+		}
+		if idx == nil {
+			c.fail("D5", fnName+":index", fn.Pos(), "scan index not identified")
+			continue
+		}
+		var exit *ssa.BasicBlock
+		for _, sb := range head.Succs {
+			if sb != body {
+				exit = sb
+			}
+		}
+		ei := errResultIndex(fn)
+		cnt := 0
+		for _, b := range fn.Blocks {
+			ret, ok := b.Instrs[len(b.Instrs)-1].(*ssa.Return)
+			if !ok || ei < 0 || len(ret.Results) < 3 {
+				continue
+			}
+			cnt++
+			n++
+			key := fmt.Sprintf("%s:return#%d", fnName, cnt)
+			env := newLinEnv(linOpts{})
+			off := env.norm(ret.Results[1])
+			okOff := off.T[env.atomKey(idx)] == 1 && len(off.T) == 1 && off.C >= 0 && off.C <= 1
+			v, isC := constIntOf(ret.Results[ei])
+			if !isC {
+				c.fail("D5", key, ret.Pos(), "indication is not a constant")
+				continue
+			}
+			endInd := v == mb || v == 0
+			var okDom bool
+			if endInd {
+				okDom = exit != nil && exit.Dominates(b) && len(exit.Preds) == 1
+			} else {
+				okDom = body.Dominates(b) && len(body.Preds) == 1
+			}
+			c.check(okOff && okDom, "D5", key, ret.Pos(), fmt.Sprintf("stop offset is the scan index (%v); the indication %d is issued %s (%v)", okOff, v, map[bool]string{true: "only after the scan ran out of bytes", false: "only at a byte inside the scan"}[endInd], okDom))
+		}
+	}
+	c.check(n >= 8, "D5", "returns", token.NoPos, fmt.Sprintf("%d returns of the IPv4 prefix test inspected (frozen minimum 8)", n))
+}
+
 func init() {
 	register(&PropDef{
 		ID: "C20",
@@ -279,6 +348,7 @@ func init() {
 			{"D1", "group limits in IP4Prefix: a digit is accumulated only while the group has <= 3 digits, the byte accumulated is exactly in '0'..'9' (exact byte set), at most four groups, value <= 255 checked in a wider type before the byte store (C10-A)", ruleD1},
 			{"D2", "address bytes are delivered on every positive return: each `return true` is preceded by copy(dst, ip[:]) under the len(dst) > 0 test (4 siblings)", ruleD2},
 			{"D3", "ContainsIP4 search: dots are searched from the resume position, candidates start 3 bytes before the dot (or at the resume position) and stop before the dot, and after a failed dot the search resumes exactly one past it, so every dot of the text is tried", ruleD3},
+			{"D5", "stop offset and indications of IP4Prefix come from the scan: every return reports the scan index; more-bytes / ok (the text ended here) only after the scanning loop's exit edge, every other indication only at a byte inside the loop — no answer from the length of the text alone", ruleD5},
 			{"D4", "GetCallIDSig classifies start/end/middle from exactly (ipOffs == 0, ipOffs+ipLen == len) of the search result and skips exactly the reported span", ruleD4},
 		},
 		Assumptions: []string{"bytes.IndexByte summary"},
